@@ -67,6 +67,10 @@ def gen_system(rng, natoms, nshells, necps, lmax=1, far=False, screened=False):
         for l in range(L + 1):
             for _ in range(rng.choice([1, 1, 2])):
                 prims.append("%d %d %r %r" % (rng.choice([2, 2, 1, 0]), l, round(10 ** rng.uniform(-0.3, 0.6), 4), round(rng.uniform(-3, 5), 4)))
+        if screened and len(prims) > 1:
+            # local part first and tighter than the projectors (the order of the shipped library)
+            t = prims[-1].split()
+            prims = ["%s %s %r %s" % (t[0], t[1], round(float(t[2]) * 10.0 + 2.0, 4), t[3])] + [q for q in prims[:-1] if q.split()[1] != t[1]]
         lines.append("ecp %d %d %s" % (a, len(prims), " ".join(prims)))
     return {"lines": lines, "natoms": natoms, "shell_atoms": sh, "ecp_atoms": ec, "pos": pos, "shells": shells}
 
